@@ -197,7 +197,7 @@ fn main() {
         let mut rng = ctx.rng();
         let mut inputs: Vec<String> = vec![];
         // every rejected kind at every position of small histories
-        let rounds = ctx.size(1, 12);
+        let rounds = ctx.size(1, 6);
         for _ in 0..rounds {
             for n in [2usize, 4, 6] {
                 for pos in 1..=n {
@@ -208,7 +208,7 @@ fn main() {
             }
         }
         // random mixes, several rejected changes per history
-        for _ in 0..ctx.size(130, 2500) {
+        for _ in 0..ctx.size(130, 1200) {
             let n = rng.range(2, ctx.size(9, 12)) as usize;
             let dangling = rng.chance(1, 10);
             let chs = gen_changes(&mut rng, n, 30, dangling);
@@ -223,7 +223,7 @@ fn main() {
         }
         // identity histories (generator of the C04 harness: delegates and strangers, real signatures over
         // documents or other bytes, duplicated verdicts, redactions, edits, multi-action ops)
-        for _ in 0..ctx.size(60, 1200) {
+        for _ in 0..ctx.size(60, 500) {
             if iw.used % 50 == 49 {
                 iw = inject::World::new();
                 repos = idrun::Repos { repos: Default::default() };
